@@ -104,6 +104,11 @@ impl Log {
                 l.extractor_text = Some(format!("{} {}", k, text));
             }
         }
+        if l.events.len() > 3_000_000 {
+            // a zero-virtual-time livelock: nothing in this process can make progress any more
+            eprintln!("EVENT-CAP: more than 3000000 events in one scenario (livelock without time passing); last: {:?}", kind);
+            std::process::exit(86);
+        }
         l.events.push(Ev { seq, ms, addr: addr.to_string(), conn, kind });
         if want_disk {
             let snap = scan_disk(&mut l);
